@@ -12,7 +12,10 @@
 (***************************************************************************)
 EXTENDS DAS, Json
 
-CONSTANTS MaxSteps, SimDepth
+CONSTANTS MaxSteps, SimDepth,
+          SpawnFirst   \* TRUE (simulation configs): the environment waits while the coordinator is
+                       \* in its job loop -- scripts the driver can follow step by step; FALSE
+                       \* (exhaustive configs): every interleaving
 VARIABLE hist
 
 mcvars == <<vars, hist>>
@@ -23,27 +26,34 @@ Log(r) == hist' = Append(hist, r)
 
 MCInit == Init /\ hist = <<[op |-> "init", a |-> storeHead, b |-> 0]>>
 
+Bounded == Len(hist) < MaxSteps
+Quiet == SpawnFirst => ~(CoordAlive /\ cpc = "spawn")
+
+\* one named action per disjunct, so that TLC's coverage statistics are per action
+MCStart == Bounded /\ Start /\ Log(Rec("start", 0, 0))
+MCSpawnRetry == Bounded /\ (\E h \in Heights : SpawnRetry(h)) /\ UNCHANGED hist
+MCSpawnCatchup == Bounded /\ SpawnCatchup /\ UNCHANGED hist
+MCSpawnEnd == Bounded /\ SpawnEnd /\ UNCHANGED hist
+MCNewHead == Bounded /\ \E h \in Heights : NewHead(h) /\ Log(Rec("head", h, 0))
+MCDeliver == Bounded /\ \E id \in DOMAIN jobs : Deliver(id) /\ Log(Rec("deliver", id, 0))
+MCPoke == Bounded /\ Poke /\ Log(Rec("poke", 0, 0))
+MCBgSnapshot == Bounded /\ BgSnapshot /\ Log(Rec("bgsnap", 0, 0))
+MCBgPersist == Bounded /\ Quiet /\ BgPersist /\ Log(Rec("bgpersist", 0, 0))
+MCStopBegin == Bounded /\ StopBegin /\ Log(Rec("stop", 0, 0))
+MCStopCancel == Bounded /\ Quiet /\ StopCancel /\ UNCHANGED hist
+MCCoordCtxDone == Bounded /\ CoordCtxDone /\ UNCHANGED hist
+MCWorkerCtxDone == Bounded /\ Quiet /\ (\E id \in DOMAIN jobs : WorkerCtxDone(id)) /\ UNCHANGED hist
+MCStopFinal == Bounded /\ StopFinal /\ UNCHANGED hist
+MCCrash == Bounded /\ Quiet /\ Crash /\ Log(Rec("crash", 0, 0))
+MCStoreAdvance == Bounded /\ \E h \in Heights : StoreAdvance(h) /\ Log(Rec("storeadvance", h, 0))
+MCWorkerStep == Bounded /\ Quiet /\ \E id \in DOMAIN jobs, o \in {"ok", "outside", "fail", "cancel"} :
+                  WorkerStep(id, o) /\ Log(Rec("step", id, o))
+MCBackoffExpire == Bounded /\ Quiet /\ \E h \in Heights : BackoffExpire(h) /\ Log(Rec("expire", h, 0))
+
 MCNext ==
-  /\ Len(hist) < MaxSteps
-  /\ \/ Start /\ Log(Rec("start", 0, 0))
-     \/ (\E h \in Heights : SpawnRetry(h)) /\ UNCHANGED hist
-     \/ SpawnCatchup /\ UNCHANGED hist
-     \/ SpawnEnd /\ UNCHANGED hist
-     \/ \E h \in Heights : NewHead(h) /\ Log(Rec("head", h, 0))
-     \/ \E id \in DOMAIN jobs : Deliver(id) /\ Log(Rec("deliver", id, 0))
-     \/ Poke /\ Log(Rec("poke", 0, 0))
-     \/ BgSnapshot /\ Log(Rec("bgsnap", 0, 0))
-     \/ BgPersist /\ Log(Rec("bgpersist", 0, 0))
-     \/ StopBegin /\ Log(Rec("stop", 0, 0))
-     \/ StopCancel /\ UNCHANGED hist
-     \/ CoordCtxDone /\ UNCHANGED hist
-     \/ (\E id \in DOMAIN jobs : WorkerCtxDone(id)) /\ UNCHANGED hist
-     \/ StopFinal /\ UNCHANGED hist
-     \/ Crash /\ Log(Rec("crash", 0, 0))
-     \/ \E h \in Heights : StoreAdvance(h) /\ Log(Rec("storeadvance", h, 0))
-     \/ \E id \in DOMAIN jobs, o \in {"ok", "outside", "fail", "cancel"} :
-          WorkerStep(id, o) /\ Log(Rec("step", id, o))
-     \/ \E h \in Heights : BackoffExpire(h) /\ Log(Rec("expire", h, 0))
+  \/ MCStart \/ MCSpawnRetry \/ MCSpawnCatchup \/ MCSpawnEnd \/ MCNewHead \/ MCDeliver \/ MCPoke
+  \/ MCBgSnapshot \/ MCBgPersist \/ MCStopBegin \/ MCStopCancel \/ MCCoordCtxDone
+  \/ MCWorkerCtxDone \/ MCStopFinal \/ MCCrash \/ MCStoreAdvance \/ MCWorkerStep \/ MCBackoffExpire
 
 MCSpec == MCInit /\ [][MCNext]_mcvars
 
